@@ -582,9 +582,18 @@ def cycle(ctx, dat, case, exp, tag, cfg, aut, lab='real'):
         if cfg.get('extra_precision_as_true'):
             ctx.count('extra_precision_requested_with_true')
     with ctx.guard(case, where='write:' + lab) as g:
+        m_before = model_of(dat)
         dat.write(bases[0] + '.dat', meshfilename=meshname(bases[0], cfg), **kw)
         sections0 = list(dat._sections)
+        m_after = model_of(dat)
     if g.raised is not None:
+        return
+    # writing is not an edit: the content of the object in memory is what it was (the list of sections and the
+    # extra-precision settings are what write() is documented to update: they are not part of the comparison)
+    ctx.count('object_unchanged_by_write_checks')
+    dw = [x for x in diff(m_before, m_after) if x[0] not in ('sections',)]
+    if dw:
+        ctx.violation('write-alters-object:%s:%s' % (dw[0][0], dw[0][1]), 'the data object differs after write(): %s' % dw[0][2], case)
         return
     w = [read_all(files_of(bases[0], cfg, aut))]
     cur = None
@@ -637,6 +646,27 @@ def cycle(ctx, dat, case, exp, tag, cfg, aut, lab='real'):
                 os.remove(f)
 
 
+def first_write_digest(ctx, c):
+    """sha1 per file of what a freshly built object of the descriptor is written as (None when it cannot be built / written)."""
+    import hashlib
+    cfg, aut = c['config'], c['flavour'] == 'AUTOUGH2'
+    base = os.path.join(ctx.tmp, 'c01_h')
+    for f in glob.glob(base + '.*'):
+        os.remove(f)
+    kw = {}
+    if aut and cfg['extra_precision']:
+        kw = {'extra_precision': True if cfg.get('extra_precision_as_true') else cfg['extra_precision'], 'echo_extra_precision': cfg['echo']}
+    try:
+        build(c).write(base + '.dat', meshfilename=meshname(base, cfg), **kw)
+        files = read_all(files_of(base, cfg, aut))
+    except Exception:
+        return None
+    out = dict((ext, hashlib.sha1(b if isinstance(b, bytes) else b.encode('latin-1')).hexdigest()) for ext, b in files.items())
+    for f in glob.glob(base + '.*'):
+        os.remove(f)
+    return out
+
+
 def nontrivial(c):
     nsec = sum(1 for k in ('rpcap', 'lineq', 'solver', 'multi', 'times', 'selection', 'diffusion', 'short') if c[k]) + 3
     lists = max(len(c['blocks']), len(c['connections']), len(c['generators']), len(c['rocks']))
@@ -650,6 +680,7 @@ def run_gen(ctx, spec):
     for n in dir(t2d):
         if n.startswith('read_') or n.startswith('write_'):
             calls.watch(getattr(t2d, n), n)
+    history = []
     for i in range(spec['n']):
         c = datacase.gen_case(ctx.rng)
         case = {'case': c}
@@ -664,12 +695,25 @@ def run_gen(ctx, spec):
             continue
         cycle(ctx, dat, case, exp, 'g', c['config'], c['flavour'] == 'AUTOUGH2', label(c))
         ctx.case(repr(c), nontrivial=nontrivial(c))
+        if i % 4 == 0 and len(history) < 40:
+            history.append((c, first_write_digest(ctx, c)))
         if c.get('duplicate_generator_keys'):
             ctx.count('decks_with_generators_sharing_block_and_name')
         if i < 1:
             ctx.samples.append({'flavour': c['flavour'], 'config': c['config'], 'blocks': len(c['blocks']), 'generators': len(c['generators']),
                                 'sections': [k for k in ('rpcap', 'lineq', 'solver', 'multi', 'times', 'selection', 'diffusion', 'short') if c[k]],
                                 'first_generator': c['generators'][0] if c['generators'] else None})
+    # the same deck written again at the END of the shard, after everything else that happened in this process (in
+    # reverse order): the files must be the same bytes - what a model is written as does not depend on what was written before
+    for c, d0 in reversed(history):
+        if d0 is None:
+            continue
+        d1 = first_write_digest(ctx, c)
+        ctx.count('history_independence_checks')
+        if d1 is not None and d1 != d0:
+            k = next((e for e in sorted(d0) if d0[e] != d1.get(e)), '?')
+            ctx.violation('write-depends-on-process-history:%s' % k.strip('.'), 'the same deck (%s) written early and late in one process gives different %s files' % (label(c), k), {'case': c})
+            break
     ctx.count('records_resliced_in_situ', mon.records)
     for k, v in calls.counts.items():
         ctx.see('read_write_methods_called', k, v) if v else None
